@@ -3,6 +3,7 @@ package main
 import (
 	"fmt"
 	"go/types"
+	"regexp"
 	"strings"
 
 	"golang.org/x/tools/go/ssa"
@@ -217,6 +218,13 @@ func (g *fnGen) doCallWithArgs(st *state, cc *ssa.CallCommon, instr ssa.Instruct
 	text, ord := g.callSiteKey(cc)
 	site := fmt.Sprintf("%s#%d", text, ord)
 
+	if g.ct != nil {
+		for _, f := range g.ct.Forbid {
+			if re, err := regexp.Compile(f); err == nil && re.MatchString(calleeName) {
+				g.oblige(st, "forbidden-call", site, cc.Pos(), "", "false", "call to "+shortName(calleeName)+" is forbidden here by the contract (forbid "+f+")")
+			}
+		}
+	}
 	// "at" hooks
 	hookNames := map[string]binding{}
 	for i, a := range ca.args {
@@ -241,6 +249,16 @@ func (g *fnGen) doCallWithArgs(st *state, cc *ssa.CallCommon, instr ssa.Instruct
 				continue
 			}
 			g.oblige(st, "pre", site+":"+clauseLabel(c, i), cc.Pos(), "", t, "precondition of "+shortName(calleeName)+": "+c.Src)
+		}
+		// recursion: the callee's measure must be smaller than the caller's (both under contract with a measure)
+		if ct.Decreases != nil && g.ct != nil && g.ct.Decreases != nil {
+			cm, _, err1 := g.eval(ct.Decreases.E, env)
+			mm, _, err2 := g.eval(g.ct.Decreases.E, &evalEnv{g: g, cur: g.entry, old: g.entry, mode: "pre"})
+			if err1 == nil && err2 == nil {
+				g.oblige(st, "decreases-call", site, cc.Pos(), "", And(S("<=", "0", cm), S("<", cm, mm)), "recursion measure decreases at call to "+shortName(calleeName))
+			} else {
+				g.stale = append(g.stale, fmt.Sprintf("decreases at call %s: %v %v", site, err1, err2))
+			}
 		}
 		// frame
 		if !ct.HasAssigns {
@@ -272,6 +290,9 @@ func (g *fnGen) doCallWithArgs(st *state, cc *ssa.CallCommon, instr ssa.Instruct
 		g.resultBindings(ct, sig, res, names)
 		env2 := &evalEnv{g: g, cur: st, old: pre, mode: "callee", names: names, pkg: calleePkg, calleeCt: ct}
 		for _, c := range ct.Ensures {
+			if mentionsGhostVar(c.E, ct) {
+				continue // postcondition over the callee's internal ghost variables: proved there, not usable here
+			}
 			t, err := g.evalBool(c.E, env2)
 			if err != nil {
 				g.stale = append(g.stale, fmt.Sprintf("callee %s ensures %q: %v", calleeName, c.Src, err))
@@ -281,6 +302,8 @@ func (g *fnGen) doCallWithArgs(st *state, cc *ssa.CallCommon, instr ssa.Instruct
 		}
 		if ct.Extern || ct.Iface {
 			g.assumptions[fmt.Sprintf("assumed contract: %s", calleeName)] = true
+		} else {
+			g.usedContracts["func "+calleeName] = true
 		}
 	} else {
 		if g.isPure(cc, calleeName) {
@@ -576,7 +599,8 @@ func (g *fnGen) doBuiltin(st *state, b *ssa.Builtin, cc *ssa.CallCommon, instr s
 				g.guardObligation(st, p, false, instr)
 			}
 			c := g.freshConst("len", "Int")
-			g.assume(st, S(">=", c, "0"))
+			g.assume(st, And(S(">=", c, "0"), S("<=", c, "1099511627776")))
+			g.assumptions["a map or channel holds fewer than 2^40 entries"] = true
 			set(c)
 		}
 	case "cap":
@@ -722,4 +746,56 @@ func (g *fnGen) doAppend(st *state, cc *ssa.CallCommon, resV ssa.Value, ca *call
 	// in place: cells outside the written window keep their value
 	g.assume(st, Imp(Not(fresh), fmt.Sprintf("(forall ((k Int)) (! (=> (or (< k (+ %s %s)) (>= k (+ %s %s))) (= (select %s k) (select %s k))) :pattern ((select %s k))))",
 		so, slen, so, newLen, inner, oldInner, inner)))
+}
+
+func mentionsGhostVar(e SExpr, ct *FuncContract) bool {
+	if len(ct.Ghosts) == 0 {
+		return false
+	}
+	names := map[string]bool{}
+	for _, gv := range ct.Ghosts {
+		names[gv.Name] = true
+	}
+	found := false
+	var walk func(e SExpr)
+	walk = func(e SExpr) {
+		switch x := e.(type) {
+		case *SIdent:
+			if names[x.Name] {
+				found = true
+			}
+		case *SCall:
+			for _, a := range x.Args {
+				walk(a)
+			}
+		case *SBin:
+			walk(x.L)
+			walk(x.R)
+		case *SUn:
+			walk(x.X)
+		case *SCond:
+			walk(x.C)
+			walk(x.A)
+			walk(x.B)
+		case *SQuant:
+			walk(x.Body)
+		case *SSel:
+			walk(x.X)
+		case *SIndex:
+			walk(x.X)
+			walk(x.I)
+		case *SSlice:
+			walk(x.X)
+			if x.Lo != nil {
+				walk(x.Lo)
+			}
+			if x.Hi != nil {
+				walk(x.Hi)
+			}
+		case *SAssert:
+			walk(x.X)
+		}
+	}
+	walk(e)
+	return found
 }
